@@ -428,7 +428,14 @@ func main() {
 				cloneTerm := "None"
 				if c != nil {
 					lp.Reset()
-					cloneTerm = core.Some(lp.LObj(c))
+					func() {
+						defer func() {
+							if r := recover(); r != nil {
+								fail(6, fmt.Sprintf("the clone is outside the modelled domain: %v", r))
+							}
+						}()
+						cloneTerm = core.Some(lp.LObj(c))
+					}()
 					var cr []c18x.Region
 					c18x.Regions(reflect.ValueOf(c), "clone", &cr)
 					oo.Nodes = len(cr)
@@ -455,33 +462,37 @@ func main() {
 					}
 				}
 
-				// mutate everything in the clone, observe the original
-				if c != nil {
+				// destructive monitors run on identical rebuilds of the original, so that the original whose term
+				// is printed is never written to by the harness.
+				// (a) mutate everything in the clone, observe the original
+				bA := build(root, i, set, *big)
+				if cA, _ := doClone(bA.obj, ks, st); cA != nil {
+					snap := c18x.Dump(bA.obj)
 					func() {
 						defer func() {
 							if r := recover(); r != nil {
 								selfcheck = fmt.Sprintf("mutating the clone panicked: %v", r)
 							}
 						}()
-						oo.Writes = c18x.MutateAll(c)
+						oo.Writes = c18x.MutateAll(cA)
 					}()
-					if d := c18x.FirstDiff(origDump, c18x.Dump(b.obj)); d != "" {
+					if d := c18x.FirstDiff(snap, c18x.Dump(bA.obj)); d != "" {
 						fail(2, "mutating the clone changed the original: "+d)
 					}
 				}
-				// mutate everything in (an identical rebuild of) the original, observe its clone
-				b2 := build(root, i, set, *big)
-				if c4, _ := doClone(b2.obj, ks, st); c4 != nil {
-					snap := c18x.Dump(c4)
+				// (b) mutate everything in the original, observe its clone
+				bB := build(root, i, set, *big)
+				if cB, _ := doClone(bB.obj, ks, st); cB != nil {
+					snap := c18x.Dump(cB)
 					func() {
 						defer func() {
 							if r := recover(); r != nil {
 								selfcheck = fmt.Sprintf("mutating the original panicked: %v", r)
 							}
 						}()
-						c18x.MutateAll(b2.obj)
+						c18x.MutateAll(bB.obj)
 					}()
-					if d := c18x.FirstDiff(snap, c18x.Dump(c4)); d != "" {
+					if d := c18x.FirstDiff(snap, c18x.Dump(cB)); d != "" {
 						fail(3, "mutating the original changed the clone: "+d)
 					}
 				}
